@@ -91,7 +91,9 @@ theorem bitsVal_append (s t : List Bool) : bitsVal (s ++ t) = bitsVal s * 2 ^ t.
   | cons b s ih =>
     simp only [List.cons_append, bitsVal, List.length_append, ih]
     rw [Nat.pow_add]
-    cases b <;> simp <;> ring
+    cases b
+    · simp
+    · simp; ring
 
 theorem bitsVal_replicate_false (k : Nat) : bitsVal (List.replicate k false) = 0 := by
   induction k with
